@@ -4,6 +4,7 @@ From Coq Require Import List ZArith NArith Bool.
 Import ListNotations.
 From Verif Require Import C01.Lisp C01.Py C01.Gen C01.Sim C01.Top.
 From Verif Require C01.FLisp C01.FCorr C01.FRefuted.
+From Verif Require C01L.LLisp C01L.LGen C01L.LTop.
 
 (** PARTIAL: for programs without a hoisting hazard the compiled code produces exactly the
     source-order effect trace (every traced sub-expression on the taken path once, none on
@@ -18,6 +19,13 @@ Theorem C02_hoist_refuted :
   exists e v tr tr', eval (fun _ => None) e = Some (v, tr) /\ run e = Some (v, tr') /\ tr <> tr'.
 Proof. exact Top.hoist_refuted. Qed.
 
+(** with loop*/recur: loop initialisers in order, recur arguments left to right, every
+    iteration's effects in source order (trace component of C01_compile_correct_loops_partial) *)
+Theorem C02_order_loops_partial : forall fuel e v tr,
+  LLisp.leval fuel (fun _ => None) e = Some (LLisp.OVal v, tr) -> LGen.hazard_free e = true ->
+  exists m, forall m', (m <= m')%nat -> LGen.lrun m' e = Some (v, tr).
+Proof. exact LTop.lcompile_correct. Qed.
+
 (** the same witness as a collection literal of the full fragment *)
 Theorem C02_hoist_literal_refuted :
   exists e, FCorr.spec e = FLisp.RVal (FLisp.OVec [FLisp.OInt 1; FLisp.OInt 2]) [FLisp.OInt 1; FLisp.OInt 2]
@@ -31,6 +39,7 @@ Theorem C02_recur_in_try_refuted :
 Proof. exact FRefuted.recur_in_try_refuted. Qed.
 
 Print Assumptions C02_order_partial.
+Print Assumptions C02_order_loops_partial.
 Print Assumptions C02_recur_in_try_refuted.
 Print Assumptions C02_hoist_literal_refuted.
 Print Assumptions C02_hoist_refuted.
